@@ -21,7 +21,8 @@ RULE = (
     "an object whose __eq__/__ne__ claim equality with everything). On each function a precondition asking for everything "
     "(+_ARGS,_KWARGS), one precondition per single parameter, a snapshot capture, a postcondition (+result, OLD) and an error "
     "factory (keyword-only parameters, some with defaults of their own that must never replace the values of the call) are attached; a "
-    "twin function asks for a name that is not a parameter. Oracle: what an undecorated twin of the "
+    "twin function asks for a name that is not a parameter. One def statement executed 2..4 times (factory: function, async function, "
+    "method of a class made in the factory, contracts applied afterwards) with default objects of its own each time, called in a random order of the definitions. Oracle: what an undecorated twin of the "
     "function receives for the same call and the object the body itself received (identity). Non-trivial = call with at least one named parameter; "
     "distinct = (signature, call shape, callable kind)."
 )
@@ -333,8 +334,128 @@ def run_batch(w, batch: List[Tuple[str, List[Dict[str, Any]], str]], exhaustive_
         loaded.unload()
 
 
+REDEFINED = """import icontract
+
+
+def c_r(a, b, c, _ARGS, _KWARGS):
+    return HUB.cond('c_r', {'a': a, 'b': b, 'c': c})
+
+
+def s_r(b, c):
+    return HUB.capture('s_r', {'b': b, 'c': c})
+
+
+def p_r(a, b, c, result, OLD):
+    return HUB.cond('p_r', {'a': a, 'b': b, 'c': c})
+
+
+def e_r(*, a, b, c):
+    return HUB.error('p_r', {'a': a, 'b': b, 'c': c})
+
+
+def make_function(db, dc):
+    @icontract.snapshot(s_r, name='snap')
+    @icontract.ensure(p_r, error=e_r)
+    @icontract.require(c_r, error=HUB.errinst('c_r'))
+    def f(a, b=db, *, c=dc):
+        return HUB.body('f', {'a': a, 'b': b, 'c': c})
+    return f
+
+
+def make_async(db, dc):
+    @icontract.snapshot(s_r, name='snap')
+    @icontract.ensure(p_r, error=e_r)
+    @icontract.require(c_r, error=HUB.errinst('c_r'))
+    async def f(a, b=db, *, c=dc):
+        return HUB.body('f', {'a': a, 'b': b, 'c': c})
+    return f
+
+
+def make_method(db, dc):
+    class K(icontract.DBC):
+        @icontract.snapshot(s_r, name='snap')
+        @icontract.ensure(p_r, error=e_r)
+        @icontract.require(c_r, error=HUB.errinst('c_r'))
+        def f(self, a, b=db, *, c=dc):
+            return HUB.body('f', {'a': a, 'b': b, 'c': c})
+    return K().f
+
+
+def make_late(db, dc):
+    def f(a, b=db, *, c=dc):
+        return HUB.body('f', {'a': a, 'b': b, 'c': c})
+    return icontract.snapshot(s_r, name='snap')(icontract.ensure(p_r, error=e_r)(icontract.require(c_r, error=HUB.errinst('c_r'))(f)))
+
+
+MAKERS = {'function': make_function, 'async': make_async, 'method': make_method, 'late': make_late}
+"""
+
+
+def run_redefined(w) -> None:
+    """One ``def`` statement executed several times (factory, loop), each time with default values of its own.
+
+    Every function object has its own defaults although all of them share one code object: the contracts of the n-th function
+    must see the defaults of the n-th function.
+    """
+    rng = w.rng
+    loaded = prog.load_source(REDEFINED, w.scratch())
+    hub = loaded.hub
+    try:
+        for rnd in range(40 if w.tier == "thorough" else 6):
+            for kind in ("function", "async", "method", "late"):
+                maker = loaded.module.MAKERS[kind]
+                n = rng.randint(2, 4)
+                made = []
+                for i in range(n):
+                    db, dc = Tok("db{}_{}".format(rnd, i)), Tok("dc{}_{}".format(rnd, i))
+                    made.append((maker(db, dc), db, dc))
+                order = list(range(n))
+                rng.shuffle(order)
+                for i in order:
+                    fn, db, dc = made[i]
+                    for shape in ("none", "b", "c", "both"):
+                        a = Tok("a")
+                        kwargs = {}
+                        expect = {"a": a, "b": db, "c": dc}
+                        if shape in ("b", "both"):
+                            kwargs["b"] = expect["b"] = Tok("kb")
+                        if shape in ("c", "both"):
+                            kwargs["c"] = expect["c"] = Tok("kc")
+                        hub.reset()
+                        hub.truth = {"p_r": False}
+                        exc = None
+                        try:
+                            res = fn(a, **kwargs)
+                            if inspect.iscoroutine(res):
+                                res = probe.drive(res)
+                        except BaseException as err:  # pylint: disable=broad-except
+                            exc = err
+                        case = {"redefined": kind, "definition": i, "of": n, "shape": shape}
+                        w.case(("redefined", kind, i, shape))
+                        w.count("redefined_def_calls")
+                        events = hub.events
+                        w.count("probe_events", len(events))
+                        fac = hub.factory_made.get("p_r", [])
+                        if not (isinstance(exc, probe.FACTORY_ERRORS) and fac and exc is fac[-1]) or len(events) != 5:
+                            w.violation("C05/contract-saw-other-value-than-body",
+                                        "definition #{} of {} of one def statement ({}), call with {}: did not run through all probes: {}: {}".format(
+                                            i, n, kind, shape, type(exc).__name__, str(exc)[:300]), case, {"events": [repr(e) for e in events]})
+                            continue
+                        for ev in events:
+                            for name, val in ev.got.items():
+                                w.count("identity_comparisons")
+                                if val is not expect[name]:
+                                    w.violation("C05/contract-saw-other-value-than-body",
+                                                "definition #{} of {} of one def statement ({}), call with {}: {} {} received {}={!r}, the function's own value is {!r}".format(
+                                                    i, n, kind, shape, ev.kind, ev.id, name, val, expect[name]), case)
+    finally:
+        loaded.unload()
+
+
 def run(w) -> None:
     rng = w.rng
+    if w.shard == 0:
+        run_redefined(w)
     thorough = w.tier == "thorough"
     max_named = 5 if thorough else 4
     sigs = list(signatures(max_named))
@@ -371,6 +492,9 @@ def run(w) -> None:
 
 
 def replay(case, w) -> None:
+    if "redefined" in case:
+        run_redefined(w)
+        return
     params = case["params"]
     kind = case.get("kind", "function")
     # (which conditions carry defaults and which argument is None are drawn at random: repeat to cover the combinations)
